@@ -214,6 +214,10 @@ func RunC09(r *core.Run) {
 		}
 		if pai {
 			o := &paisObj{}
+			if rr.Intn(3) == 0 {
+				ob := []byte([]string{"<sip:a>, \"x", "*\r\nX", "<sip:a>;p=1 , <sip:b>, <sip", "<sip:q>\r\nX"}[rr.Intn(4)])
+				core.Guard(func() { sipsp.ParseAllPAIValues(ob, 0, &o.c); o.c.Reset() })
+			}
 			nn, e, _, pan := drive(o, buf, 0, cuts)
 			w.Eval(1)
 			if pan != "" {
@@ -242,6 +246,12 @@ func RunC09(r *core.Run) {
 			for cc := -1; cc <= nv+1; cc++ {
 				o := &contactsObj{}
 				o.c.Init(mkContacts(cc))
+				if cc > 0 && rr.Intn(3) == 0 {
+					// the list was used before: another value list abandoned somewhere, then Reset()
+					ob, _ := gen.NameAddrValue(rr, rr.Range(1, 5), false, false)
+					core.Guard(func() { sipsp.ParseAllContactValues(ob[:rr.Intn(len(ob)+1)], 0, &o.c); o.c.Reset() })
+					w.Inc("lists_on_reused_objects")
+				}
 				nn, e, _, pan := drive(o, buf, 0, cuts)
 				w.Eval(1)
 				if pan != "" {
